@@ -8,6 +8,7 @@ from hypothesis import strategies as st
 
 import cirq
 from vf.core import Reject, SubCheck, Violation
+from vf.gen import gates as G
 from vf.gen import meas_circuits as MC
 from vf.prng import ScriptedPRNG, enumerate_branches
 from vf.ref import interp as RI
@@ -342,6 +343,159 @@ def oracle_sample_pure(r):
     return {"nontrivial": nz >= 2 and len(pick) >= 2 and r["pick"] != sorted(r["pick"]), "dm": dm, "qudit": any(d != 2 for d in shape)}
 
 
+# ------------------------------------------------------------------------------- the public measure / sample functions
+
+
+@st.composite
+def _fn_case(draw):
+    n = draw(st.integers(1, 4))
+    qud = draw(st.integers(0, 2)) == 0
+    dims = draw(st.lists(st.sampled_from([2, 2, 3] if qud else [2]), min_size=n, max_size=n))
+    while L.dim(dims) > 36:
+        dims = dims[:-1]
+    n = len(dims)
+    D = L.dim(dims)
+    k = draw(st.integers(0, n))
+    fn = draw(st.sampled_from(["measure_sv", "measure_sv", "sample_sv", "measure_dm", "measure_dm", "sample_dm"]))
+    # sampling repeatedly multiplies the branches: few non-zero amplitudes there; measuring takes dense states too
+    nnz = draw(st.integers(1, 3)) if fn.startswith("sample") else draw(st.sampled_from([1, 2, 3, D, D]))
+    return {"dims": dims, "idx": list(draw(st.permutations(list(range(n)))))[:k], "fn": fn,
+            "form": draw(st.sampled_from(["flat", "tensor"])), "out": draw(st.sampled_from(["none", "fresh", "same"])),
+            "c64": draw(st.booleans()), "reps": draw(st.integers(0, 3)), "pass_shape": draw(st.booleans()),
+            "v": draw(st.lists(G.small_floats(), min_size=2 * D, max_size=2 * D)),
+            "v2": draw(st.lists(G.small_floats(), min_size=2 * D, max_size=2 * D)),
+            "w": draw(st.sampled_from([1.0, 0.5, 0.25, 0.9])),
+            "keep": sorted(draw(st.permutations(list(range(D))))[: max(1, min(nnz, D))])}
+
+
+def _sparse_state(vals, D, keep):
+    psi = L.state_from_floats(vals, D)
+    m = np.zeros(D)
+    m[list(keep)] = 1
+    psi = psi * m
+    if np.linalg.norm(psi) < 1e-6:
+        psi = np.zeros(D, dtype=complex)
+        psi[keep[0]] = 1
+    return psi / np.linalg.norm(psi)
+
+
+def oracle_functions(r):
+    """cirq.measure_state_vector / sample_state_vector / measure_density_matrix / sample_density_matrix called directly: exact
+    outcome probabilities (logged by the scripted PRNG), post-measurement state = projected and renormalised input, documented
+    `out` aliasing, shape/dtype, purity of sampling."""
+    dims = list(r["dims"])
+    D = L.dim(dims)
+    idx = [i for i in r["idx"] if i < len(dims)]
+    is_dm = r["fn"].endswith("dm")
+    dt = np.complex64 if r["c64"] else np.complex128
+    ptol, stol = (2e-5, 2e-5) if r["c64"] else (1e-9, 1e-8)
+    keep = [k for k in r["keep"] if k < D] or [0]
+    psi = _sparse_state(r["v"], D, keep)
+    rho = np.outer(psi, psi.conj())
+    if is_dm and r["w"] < 1:
+        psi2 = _sparse_state(r["v2"], D, keep[::-1] if len(keep) > 1 else [(keep[0] + 1) % D])
+        rho = r["w"] * rho + (1 - r["w"]) * np.outer(psi2, psi2.conj())
+    arr0 = (rho if is_dm else psi).astype(dt)
+    if r["form"] == "tensor":
+        arr0 = arr0.reshape(dims * 2 if is_dm else dims)
+    kw = {}
+    if any(d != 2 for d in dims) or r["pass_shape"]:
+        kw["qid_shape"] = tuple(dims)
+    # reference marginal and projectors from the rounded input actually handed over
+    ref_rho = np.asarray(arr0, dtype=np.complex128).reshape(D, D) if is_dm else None
+    ref_psi = None if is_dm else np.asarray(arr0, dtype=np.complex128).reshape(D)
+    diag = np.real(np.diag(ref_rho)) if is_dm else np.abs(ref_psi) ** 2
+    mdims = [dims[i] for i in idx]
+    marg, members = {}, {}
+    for b in range(D):
+        digs = L.index_to_digits(b, dims)
+        key = tuple(int(digs[i]) for i in idx)
+        marg[key] = marg.get(key, 0.0) + float(diag[b])
+        members.setdefault(key, []).append(b)
+    name = {"measure_sv": "measure_state_vector", "sample_sv": "sample_state_vector", "measure_dm": "measure_density_matrix",
+            "sample_dm": "sample_density_matrix"}[r["fn"]]
+    f = getattr(cirq, name)
+    if r["fn"].startswith("measure"):
+        def run(prng):
+            a = arr0.copy()
+            out = None if r["out"] == "none" else (a if r["out"] == "same" else np.zeros_like(a))
+            bits, res = f(a, idx, out=out, seed=prng, **kw)
+            return bits, res, a, out
+
+        try:
+            branches = enumerate_branches(run, max_branches=64)
+        except OverflowError:
+            raise Reject("too many branches")
+        seen = {}
+        for p, script, (bits, res, a, out), prng in branches:
+            key = tuple(int(b) for b in bits)
+            if len(key) != len(idx) or any(not 0 <= x < d for x, d in zip(key, mdims)):
+                raise Violation(f"cirq.{name}: returned digits {list(bits)} for indices {idx} of qid shape {dims}")
+            seen[key] = seen.get(key, 0.0) + p
+            if abs(p - marg[key]) > ptol:
+                raise Violation(f"cirq.{name}: outcome {list(key)} on indices {idx} drawn with probability {p:.8g}, Born rule gives {marg[key]:.8g}")
+            P = np.zeros(D)
+            P[members[key]] = 1
+            if is_dm:
+                want = (P[:, None] * ref_rho * P[None, :]) / marg[key]
+            else:
+                want = P * ref_psi / np.sqrt(marg[key])
+            got = np.asarray(res)
+            if got.shape != arr0.shape or got.dtype != arr0.dtype:
+                raise Violation(f"cirq.{name}: result has shape/dtype {got.shape}/{got.dtype}, documented: those of the input {arr0.shape}/{arr0.dtype}")
+            e = L.max_abs_diff(np.asarray(got, dtype=np.complex128).reshape(want.shape), want)
+            if e > stol:
+                raise Violation(f"cirq.{name}: post-measurement state for outcome {list(key)} on indices {idx} differs from the projected, renormalised input by {e:.3g}")
+            if r["out"] == "same":
+                if res is not a:
+                    raise Violation(f"cirq.{name}(out=state) did not return the state object it was told to modify in place")
+            else:
+                if not np.array_equal(a, arr0):
+                    raise Violation(f"cirq.{name} modified its input although out is not the input")
+                if r["out"] == "fresh" and res is not out:
+                    raise Violation(f"cirq.{name}(out=buffer) returned a different array than `out`")
+        if abs(sum(seen.values()) - 1) > 1e-6 + ptol * len(seen):
+            raise Violation(f"cirq.{name}: branch probabilities sum to {sum(seen.values()):.8g}")
+        lab_branches = len(seen)
+    else:
+        reps = r["reps"]
+
+        def run(prng):
+            a = arr0.copy()
+            return f(a, idx, repetitions=reps, seed=prng, **kw), a
+
+        try:
+            branches = enumerate_branches(run, max_branches=600, branch_vectors=3)
+        except OverflowError:
+            raise Reject("too many branches")
+        got = {}
+        for p, script, (rows, a), prng in branches:
+            rows = np.asarray(rows)
+            if rows.shape != (reps, len(idx)):
+                raise Violation(f"cirq.{name}: returned shape {rows.shape}, documented (repetitions, indices) = {(reps, len(idx))}")
+            if not np.array_equal(a, arr0):
+                raise Violation(f"cirq.{name} modified the state it samples from")
+            kk = tuple(tuple(int(x) for x in row) for row in rows)
+            got[kk] = got.get(kk, 0.0) + p
+        want = {}
+        single = {k: v for k, v in marg.items() if v > 1e-12}
+        if len(idx) == 0 or reps == 0:
+            want = {tuple(() for _ in range(reps)) if len(idx) == 0 else (): 1.0}
+        else:
+            for combo in itertools.product(sorted(single), repeat=reps):
+                pr = 1.0
+                for c in combo:
+                    pr *= single[c]
+                want[tuple(combo)] = pr
+        for kk in set(got) | set(want):
+            if abs(got.get(kk, 0.0) - want.get(kk, 0.0)) > ptol * 10 + 1e-9:
+                raise Violation(f"cirq.{name}(repetitions={reps}): rows {kk} on indices {idx} have probability {got.get(kk, 0.0):.8g}, Born rule gives {want.get(kk, 0.0):.8g}")
+        lab_branches = len(got)
+    return {"nontrivial": lab_branches >= 2 and len(idx) >= 1 and (idx != sorted(idx) or len(idx) < len(dims)), "fn": r["fn"],
+            "qudit": any(d != 2 for d in dims), "out": r["out"], "tensor_form": r["form"] == "tensor", "c64": r["c64"],
+            "permuted_indices": idx != sorted(idx)}
+
+
 SUBCHECKS = [
     SubCheck("distribution", _case(max_w=4, max_ops=9, max_branches=32), oracle_distribution, quick=3000, thorough=24000, shards_quick=8,
              essential={"cond": 0.15, "repeated_key": 0.05}),
@@ -351,4 +505,5 @@ SUBCHECKS = [
     SubCheck("distribution_tableau", _case(sims=["stab_sampler"], max_w=4, max_ops=12, clifford=True, confusion=False, max_branches=16),
              oracle_distribution, quick=500, thorough=4000, shards_quick=4),
     SubCheck("sampling_is_pure", _sample_case(), oracle_sample_pure, quick=600, thorough=8000, shards_quick=2),
+    SubCheck("measure_functions", _fn_case(), oracle_functions, quick=1500, thorough=30000, shards_quick=2, frozen_keys=("dims",)),
 ]
